@@ -1,3 +1,380 @@
 import B6.Driver.Common
-/-! Driver for C28 — stub (the check for this property is not built yet). -/
-def main : IO Unit := B6.Driver.run { σ := Unit, init := (), step := fun s _ _ => (s, .bad) }
+import B6.Model.Proto.EachItem
+import B6.Model.Proto.Feed
+import B6.Model.Proto.Pbf
+/-!
+Driver for C28.  One op line = one run of one streaming API with a failing callback:
+
+  `run p=<eachitem|memread|pbf|eachfeature|modtags> g=<n> mp=<n> sizes=[s0 s1 …] fail=[k.j …] mode=<persist|once> multi=<0|1> y=<n>`
+  answer `<err|nil|hang|panic> [k.j@w+/t k.j@w!/t …]`   (callback entries in order; `!` = this call returned an error; t = tagged entries)
+
+Property predicate, evaluated on the implementation's answer alone (`propfail <clause>`):
+  `no_deadlock`     the run did not return (`hang`)
+  `panic`           the run panicked
+  `error_reported`  some callback returned an error but the function returned nil
+  `worker_stops`    a goroutine ran another callback after one of its callbacks had returned an error
+Model conformance (`diff …`): the answer must be a run of the protocol model — the trace is REPLAYED through the
+model's `step` relation (every transition taken is checked to be a member of `step s`; the hidden feeder /
+channel / exit steps are inserted as late as possible), the model must reach a terminal state without any
+callback the trace does not contain, and its return value must be the implementation's.  For `eachfeature` and
+`modtags` the feed order is Go map order, so items are renumbered by the order of their callbacks.
+-/
+open B6.Driver B6.Model.Proto
+namespace B6.Driver.C28
+
+structure Ev where
+  k : Nat
+  j : Nat
+  w : Nat
+  fail : Bool
+  tags : Nat
+deriving Repr
+
+structure Run where
+  proto : String
+  g : Nat
+  sizes : List Nat
+  fail : List (Nat × Nat)
+  multi : Bool
+
+/-- `key=value` field of an op text; a value that starts with `[` extends to the matching `]` -/
+def field (op key : String) : Option String :=
+  match op.splitOn (" " ++ key ++ "=") with
+  | [_, rest] =>
+    if rest.startsWith "[" then
+      match rest.splitOn "]" with
+      | first :: _ :: _ => some (first ++ "]")
+      | _ => none
+    else (rest.splitOn " ").head?
+  | _ => none
+
+def parsePair (sep : String) (s : String) : Option (Nat × Nat) :=
+  match s.splitOn sep with
+  | [a, b] => do some ((← a.toNat?), (← b.toNat?))
+  | _ => none
+
+def parseRun (op : String) : Option Run := do
+  guard (op.startsWith "run ")
+  let p ← field op "p"
+  let g ← (← field op "g").toNat?
+  let sizes ← (← parseBracket (← field op "sizes")).mapM (·.toNat?)
+  let fail ← (← parseBracket (← field op "fail")).mapM (parsePair ".")
+  let multi ← field op "multi"
+  guard (multi == "0" || multi == "1")
+  guard (["eachitem", "memread", "pbf", "eachfeature", "modtags"].contains p)
+  some { proto := p, g := g, sizes := sizes, fail := fail, multi := multi == "1" }
+
+/-- `k.j@w+/t` -/
+def parseEv (s : String) : Option Ev := do
+  let (kj, rest) ← (match s.splitOn "@" with | [a, b] => some (a, b) | _ => none)
+  let (k, j) ← parsePair "." kj
+  let (wm, t) ← (match rest.splitOn "/" with | [a, b] => some (a, b) | _ => none)
+  let tags ← t.toNat?
+  let fail ← (if wm.endsWith "!" then some true else if wm.endsWith "+" then some false else none)
+  let w ← (sdropEnd wm 1).toNat?
+  some { k := k, j := j, w := w, fail := fail, tags := tags }
+
+def parseAnswer (a : String) : Option (String × List Ev) :=
+  match words a with
+  | [o] => if o == "hang" || o == "panic" then some (o, []) else none
+  | o :: _ =>
+    if o == "err" || o == "nil" then do
+      let evs ← (← parseBracket (sdrop a (o.length + 1))).mapM parseEv
+      some (o, evs)
+    else none
+  | [] => none
+
+/-! ### the property predicate on the implementation's answer -/
+
+/-- does some goroutine run a callback after one of its callbacks failed? -/
+def workerContinues : List Ev → List Nat → Bool
+  | [], _ => false
+  | e :: es, dead => dead.contains e.w || workerContinues es (if e.fail then e.w :: dead else dead)
+
+def propertyClause (outcome : String) (evs : List Ev) : Option String :=
+  if outcome == "hang" then some "no_deadlock"
+  else if outcome == "panic" then some "panic"
+  else if evs.any (·.fail) && outcome == "nil" then some "error_reported"
+  else if workerContinues evs [] then some "worker_stops"
+  else none
+
+/-! ### replay through a model -/
+
+/-- what the replay needs to know about a model -/
+structure Engine (σ : Type) where
+  step : σ → List σ
+  beq : σ → σ → Bool
+  next : σ → Nat
+  n : Nat
+  size : Nat → Nat
+  /-- worker `w` is about to call the callback on sub-item `j` of item `k` -/
+  isBusy : σ → Nat → Nat → Nat → Bool
+  isIdle : σ → Nat → Bool
+  /-- the states the model passes through when the feeder delivers item `next` to worker `w` -/
+  deliver : σ → Nat → List σ
+  /-- the callback step of worker `w` -/
+  call : σ → Nat → Option σ
+  /-- the next step of the run-down after the last callback (`none` = terminal), or why there is none -/
+  silent : σ → Except String (Option σ)
+  ret : σ → Option Bool
+
+/-- take the transitions `s → t₁ → t₂ …`, each of which must be a step of the model -/
+def follow {σ : Type} (E : Engine σ) (s : σ) : List σ → Except String σ
+  | [] => .ok s
+  | t :: ts => if (E.step s).any (E.beq t) then follow E t ts else .error "not-a-step-of-the-model"
+
+/-- first goroutine that calls sub-item 0 of item `b` later in the trace -/
+def owner (evs : List Ev) (b : Nat) : Option Nat := (evs.find? fun e => e.k == b && e.j == 0).map (·.w)
+
+/-- make the feeder advance until item `k` has been delivered to worker `w` -/
+def deliverUpTo {σ : Type} (E : Engine σ) (evs : List Ev) (k w : Nat) : Nat → σ → Except String σ
+  | 0, _ => .error "out-of-fuel"
+  | fuel + 1, s =>
+    let b := E.next s
+    if b > k then .ok s
+    else if b ≥ E.n then .error s!"item-{k}-does-not-exist"
+    else
+      let tgt : Except String Nat :=
+        if b == k then .ok w
+        else if E.size b == 0 then .ok w
+        else match owner evs b with
+          | some o => .ok o
+          | none => .error s!"item-{b}-never-called-but-item-{k}-was"
+      match tgt with
+      | .error e => .error e
+      | .ok o =>
+        if !E.isIdle s o then .error s!"goroutine-{o}-not-free-for-item-{b}"
+        else match follow E s (E.deliver s o) with
+          | .error e => .error e
+          | .ok s' => if E.next s' == b + 1 then deliverUpTo E evs k w fuel s' else .error "feeder-did-not-advance"
+
+def replayEvents {σ : Type} (E : Engine σ) : List Ev → σ → Except String σ
+  | [], s => .ok s
+  | e :: es, s => do
+    let s ← (if e.j == 0 && !E.isBusy s e.w e.k 0 then deliverUpTo E (e :: es) e.k e.w (E.n + 2) s else .ok s)
+    if !E.isBusy s e.w e.k e.j then .error s!"goroutine-{e.w}-cannot-call-{e.k}.{e.j}-here"
+    else match E.call s e.w with
+      | none => .error "no-callback-step"
+      | some t => do
+        let s ← follow E s [t]
+        replayEvents E es s
+
+def runDown {σ : Type} (E : Engine σ) : Nat → σ → Except String σ
+  | 0, _ => .error "run-down-out-of-fuel"
+  | fuel + 1, s =>
+    match E.silent s with
+    | .error e => .error e
+    | .ok none => .ok s
+    | .ok (some t) => do
+      let s ← follow E s [t]
+      runDown E fuel s
+
+/-- replay the whole answer; the result is the model's return value -/
+def replay {σ : Type} (E : Engine σ) (init : σ) (g : Nat) (evs : List Ev) : Except String Bool := do
+  let s ← replayEvents E evs init
+  let s ← runDown E (4 * (E.n + g) + 16) s
+  match E.ret s with
+  | some r => .ok r
+  | none => .error "model-not-terminal"
+
+def findIdx {α : Type} (p : α → Bool) (l : List α) : Option Nat :=
+  let rec go : List α → Nat → Option Nat
+    | [], _ => none
+    | x :: xs, i => if p x then some i else go xs (i + 1)
+  go l 0
+
+/-! #### EachItem -/
+namespace EI
+open B6.Model.Proto.EachItem
+
+def engine (c : Cfg) : Engine St where
+  step := step c
+  beq := fun a b => a == b
+  next := (·.next)
+  n := c.n
+  size := c.size
+  isBusy := fun s w k j => s.ws[w]? == some (W.busy k j)
+  isIdle := fun s w => s.ws[w]? == some W.idle
+  deliver := fun s w => [hand c s w]
+  call := fun s w => match s.ws[w]? with
+    | some x => (workerStep c s w x).head?
+    | none => none
+  silent := fun s =>
+    if s.ret.isSome then .ok none
+    else match findIdx (· == W.failing) s.ws with
+    | some i => .ok ((workerStep c s i W.failing).head?)
+    | none =>
+      match findIdx (fun x => match x with | W.busy _ _ => true | _ => false) s.ws with
+      | some i => .error s!"goroutine-{i}-holds-a-bucket-whose-callbacks-are-missing"
+      | none =>
+        if s.closed == false && s.stopped == false && s.next < c.n then
+          if s.tokens > 0 then .ok (some { s with tokens := s.tokens - 1, stopped := true })
+          else if c.size s.next == 0 then
+            match findIdx (· == W.idle) s.ws with
+            | some i => .ok (some (hand c s i))
+            | none => .error "nobody-to-take-an-empty-bucket"
+          else .error s!"bucket-{s.next}-never-called-though-nothing-was-cancelled"
+        else if s.closed == false then .ok (some { s with closed := true })
+        else match findIdx (· == W.idle) s.ws with
+          | some i => .ok ((workerStep c s i W.idle).head?)
+          | none => .ok (some { s with ret := some s.cause })
+  ret := (·.ret)
+
+end EI
+
+/-! #### Feed (memread: watch = true; eachfeature, modtags: watch = false) -/
+namespace FD
+open B6.Model.Proto.Feed
+
+def engine (c : Cfg) : Engine St where
+  step := step c
+  beq := fun a b => a == b
+  next := (·.next)
+  n := c.n
+  size := fun _ => 1
+  isBusy := fun s w k j => j == 0 && s.ws[w]? == some (W.busy k)
+  isIdle := fun s w => s.ws[w]? == some W.idle
+  deliver := fun s w =>
+    let s1 : St := { s with queue := s.queue ++ [s.next], next := s.next + 1 }
+    s1 :: (recv s1 w)
+  call := fun s w => match s.ws[w]? with
+    | some x => (workerStep c s w x).head?
+    | none => none
+  silent := fun s =>
+    if s.ret.isSome then .ok none
+    else match findIdx (· == W.failing) s.ws with
+    | some i => .ok ((workerStep c s i W.failing).head?)
+    | none =>
+      match findIdx (fun x => match x with | W.busy _ => true | _ => false) s.ws with
+      | some i => .error s!"goroutine-{i}-holds-an-item-whose-callback-is-missing"
+      | none =>
+        if s.closed == false && s.stopped == false && s.next < c.n then
+          if s.cancelled then .ok (some { s with stopped := true })
+          else .error s!"item-{s.next}-never-called-though-nothing-was-cancelled"
+        else if s.closed == false then .ok (some { s with closed := true })
+        else match findIdx (· == W.idle) s.ws with
+          | some i => .ok (some { s with ws := s.ws.set i W.exited })
+          | none => .ok (some { s with ret := some s.cause })
+  ret := (·.ret)
+
+end FD
+
+/-! #### Pbf -/
+namespace PB
+open B6.Model.Proto.Pbf
+
+def engine (c : Cfg) : Engine St where
+  step := step c
+  beq := fun a b => a == b
+  next := (·.next)
+  n := c.n
+  size := c.size
+  isBusy := fun s w k j => s.ws[w]? == some (W.busy k j)
+  isIdle := fun s w => s.ws[w]? == some W.idle
+  deliver := fun s w =>
+    let s1 : St := { s with queue := s.queue ++ [Msg.data s.next], next := s.next + 1 }
+    s1 :: (recv c s1 w)
+  call := fun s w => match s.ws[w]? with
+    | some x => (workerStep c s w x).head?
+    | none => none
+  silent := fun s =>
+    if s.ret.isSome then .ok none
+    else match findIdx (· == W.failing) s.ws with
+    | some i => .ok ((workerStep c s i W.failing).head?)
+    | none =>
+      match findIdx (fun x => match x with | W.busy _ _ => true | _ => false) s.ws with
+      | some i => .error s!"goroutine-{i}-holds-a-blob-whose-callbacks-are-missing"
+      | none =>
+        let idle := findIdx (· == W.idle) s.ws
+        -- whatever is in the channel is taken first (only empty blobs and done-blobs get there during the run-down)
+        match s.queue, idle with
+        | Msg.data k :: _, some i =>
+          if c.size k == 0 then .ok ((recv c s i).head?) else .error s!"blob-{k}-left-in-the-channel"
+        | Msg.done :: _, some i => .ok ((recv c s i).head?)
+        | _, _ =>
+          match s.rd with
+          | R.reading =>
+            if s.next < c.n then
+              if s.cancelled then .ok (some { s with rd := R.sending 0, stopped := true })
+              else if c.size s.next == 0 then
+                .ok (some { s with queue := s.queue ++ [Msg.data s.next], next := s.next + 1 })
+              else .error s!"blob-{s.next}-never-called-though-nothing-was-cancelled"
+            else .ok (some { s with rd := R.sending 0 })
+          | R.sending j =>
+            if j < c.g then
+              if s.cancelled then .ok (some { s with rd := R.sending (j + 1) })
+              else .ok (some { s with queue := s.queue ++ [Msg.done], rd := R.sending (j + 1) })
+            else .ok (some { s with rd := R.finished })
+          | R.finished =>
+            match idle with
+            | some i => if s.cancelled then .ok (some { s with ws := s.ws.set i W.exited }) else .error "worker-without-a-done-blob"
+            | none => .ok (some { s with ret := some s.oerr })
+  ret := (·.ret)
+
+end PB
+
+/-! ### one op line -/
+
+def memPair (l : List (Nat × Nat)) (k j : Nat) : Bool := l.any fun p => p.1 == k && p.2 == j
+
+/-- renumber items by the order of their callbacks (feed order unknown: Go map iteration) -/
+def renumber (n : Nat) (evs : List Ev) : Nat → Option Nat :=
+  let seen := evs.map (·.k)
+  let rest := (List.range n).filter fun k => !seen.contains k
+  let order := seen ++ rest
+  fun k => findIdx (· == k) order
+
+def expectedTags (r : Run) (k j : Nat) : Nat :=
+  if r.proto == "eachitem" && r.multi then 1 + (k + j) % 2 else 1
+
+/-- the model's verdict on an answer whose outcome is `err` or `nil` -/
+def conform (r : Run) (outcome : String) (evs : List Ev) : Except String Unit := do
+  let n := r.sizes.length
+  let size : Nat → Nat := fun k => (r.sizes[k]?).getD 0
+  -- event sanity against the op
+  for e in evs do
+    if e.w ≥ r.g then throw s!"goroutine-{e.w}-out-of-range"
+    if e.k ≥ n || e.j ≥ size e.k then throw s!"no-such-sub-item-{e.k}.{e.j}"
+    if e.fail != memPair r.fail e.k e.j then throw s!"callback-result-of-{e.k}.{e.j}-differs-from-the-plan"
+    if e.tags != expectedTags r e.k e.j then throw s!"{e.k}.{e.j}-called-with-{e.tags}-tagged-entries"
+  let ret ←
+    if r.proto == "eachitem" then
+      let c : EachItem.Cfg := { g := r.g, n := n, size := size, fails := fun k j => memPair r.fail k j }
+      replay (EI.engine c) (EachItem.init c) r.g evs
+    else if r.proto == "pbf" then
+      let c : Pbf.Cfg := { g := r.g, n := n, size := size, fails := fun k j => memPair r.fail k j }
+      replay (PB.engine c) (Pbf.init c) r.g evs
+    else if r.proto == "memread" then
+      let c : Feed.Cfg := { g := r.g, n := n, fails := fun k => memPair r.fail k 0, watch := true }
+      replay (FD.engine c) (Feed.init c) r.g evs
+    else
+      -- eachfeature / modtags: items renumbered by callback order
+      if evs.any (fun e => (evs.filter (·.k == e.k)).length > 1) then throw "item-called-twice" else
+      let ren := renumber n evs
+      let evs' ← evs.mapM fun e => match ren e.k with
+        | some k' => pure { e with k := k' }
+        | none => throw "renumbering"
+      let failing : List Nat := (List.range n).filter fun k => memPair r.fail k 0
+      let failing' := failing.filterMap ren
+      let c : Feed.Cfg := { g := r.g, n := n, fails := fun k => failing'.contains k, watch := false }
+      replay (FD.engine c) (Feed.init c) r.g evs'
+  let model := if ret then "err" else "nil"
+  if model != outcome then throw s!"model-returns-{model}"
+
+def step (_ : Unit) (op impl : String) : Unit × Verdict :=
+  match parseRun op, parseAnswer impl with
+  | some r, some (outcome, evs) =>
+    if r.g == 0 then ((), .bad) else
+    match propertyClause outcome evs with
+    | some clause => ((), .propfail clause)
+    | none =>
+      match conform r outcome evs with
+      | .ok () => ((), .ok)
+      | .error e => ((), .diff ("model-rejects:" ++ e))
+  | _, _ => ((), .bad)
+
+def family : Family := { σ := Unit, init := (), step := step }
+
+end B6.Driver.C28
+
+def main : IO Unit := B6.Driver.run B6.Driver.C28.family
